@@ -11,6 +11,7 @@ from .numpy_vjps import (
     dot_adjoint_0,
     dot_adjoint_1,
     match_complex,
+    memory_order,
     nograd_functions,
     partition_permutation,
     replace_zero,
@@ -84,14 +85,18 @@ defjvp(anp.rad2deg, "same")
 defjvp(anp.degrees, "same")
 defjvp(anp.deg2rad, "same")
 defjvp(anp.radians, "same")
-defjvp(anp.reshape, "same")
+# (order="A" depends on the memory layout of its argument: the tangent is read in the order x was)
+defjvp(
+    anp.reshape,
+    lambda g, ans, x, shape, order=None: anp.reshape(g, shape, order=memory_order(x, order)),
+)
 defjvp(anp.roll, "same")
 defjvp(anp.array_split, "same")
 defjvp(anp.split, "same")
 defjvp(anp.vsplit, "same")
 defjvp(anp.hsplit, "same")
 defjvp(anp.dsplit, "same")
-defjvp(anp.ravel, "same")
+defjvp(anp.ravel, lambda g, ans, x, order=None: anp.ravel(g, order=memory_order(x, order)))
 defjvp(anp.expand_dims, "same")
 defjvp(anp.squeeze, "same")
 defjvp(anp.diag, "same")
